@@ -19,12 +19,34 @@ use quil_rs::program::scheduling::{ExecutionDependency, ScheduledGraphNode, Sche
 pub struct C24Prop;
 pub static C24: C24Prop = C24Prop;
 
+fn queue_max(tier: Tier) -> usize {
+    tier.pick(8, 11)
+}
+
 impl Property for C24Prop {
+    fn enumerate(&self, tier: Tier, shard: u64, nshards: u64, f: &mut dyn FnMut(crate::engine::Case) -> bool) {
+        let mut counter = 0u64;
+        for len in 0..=queue_max(tier) {
+            let total = 4u64.pow(len as u32);
+            for code in 0..total {
+                counter += 1;
+                if counter % nshards != shard {
+                    continue;
+                }
+                if !f(crate::engine::Case::direct(vec![3, len as u32, (code >> 32) as u32, code as u32])) {
+                    return;
+                }
+            }
+        }
+    }
+    fn exhaustive_part(&self, tier: Tier) -> Option<String> {
+        Some(format!("all frame-queue access sequences ({{uses, blocks}} x {{same node, next node}}) of length <= {}", queue_max(tier)))
+    }
     fn id(&self) -> &'static str {
         "C24"
     }
     fn rule(&self) -> &'static str {
-        "random blocks of 0..12 (quick) / 0..20 (thorough) instructions over frames {0 \"a\", 0 \"b\", 1 \"a\", 0 1 \"c\"} (each defined with probability 90%) and one undefined frame: blocking and non-blocking PULSE/CAPTURE/RAW-CAPTURE, DELAY (qubits, names), FENCE (all / qubits), SET/SHIFT, SWAP-PHASES, RESET q, RESET, interleaved with classical instructions. Non-trivial = a block with >= 2 conflicting pairs and >= 1 non-conflicting pair of RF instructions; distinct by program text."
+        "exhaustive (through the cfg hook): every frame-queue access sequence of length <= 8/11 compared with the reference bookkeeping; random blocks of 0..12 (quick) / 0..20 (thorough) instructions over frames {0 \"a\", 0 \"b\", 1 \"a\", 0 1 \"c\"} (each defined with probability 90%) and one undefined frame: blocking and non-blocking PULSE/CAPTURE/RAW-CAPTURE, DELAY (qubits, names), FENCE (all / qubits), SET/SHIFT, SWAP-PHASES, RESET q, RESET, interleaved with classical instructions. Non-trivial = a block with >= 2 conflicting pairs and >= 1 non-conflicting pair of RF instructions; distinct by program text."
     }
     fn max_words(&self) -> usize {
         400
@@ -33,6 +55,18 @@ impl Property for C24Prop {
         tier.pick(60_000, 1_500_000)
     }
     fn run(&self, src: &mut Src, ctx: &Ctx, out: &mut Outcome) -> Check {
+        if src.below(4) == 3 {
+            let len = src.below(13);
+            let code = ((src.word() as u64) << 32) | src.word() as u64;
+            let steps: Vec<(usize, bool)> = super::queue::decode(code, len, 2).into_iter().map(|(n, k)| (n, k == 1)).collect();
+            out.set_key(&(2u8, &steps));
+            out.class("queue-direct");
+            out.nontrivial = steps.iter().any(|s| s.1) && steps.iter().any(|s| !s.1);
+            if ctx.render {
+                out.render = Some(format!("frame queue accesses (node, uses): {steps:?}"));
+            }
+            return super::queue::check_frame(&steps);
+        }
         let opts = Opts { classical: src.chance(1, 3), control_flow: false, reset: true, rf_memory: false, timed_only: false, define_pct: 90, max_len: ctx.tier.pick(12, 20) };
         let g = rfprog::generate(src, &opts);
         let text = sched::texts(&g.body);
